@@ -24,7 +24,7 @@ from vlib.py2v import Untranslatable, dotted
 
 CLS = {"Row": "CRow", "dict": "CDict", "list": "CList", "set": "CSet", "tuple": "CTuple", "bool": "CBool",
        "bytes": "CBytes", "int": "CInt", "float": "CFloat", "datetime.datetime": "CDatetime",
-       "datetime.date": "CDate", "str": "CStr"}
+       "datetime.date": "CDate", "str": "CStr", "Decimal": "CDecimal"}
 PRIM = {"boolean": "TBool", "binary": "TBinary", "bigint": "TBigint", "double": "TDouble", "date": "TDate",
         "string": "TString"}
 
@@ -186,7 +186,7 @@ def infer_chain(tree, src):
     # how the inferred string is used: exp.DataType.build(default_data_type, dialect="spark") if default_data_type else None
     builds = [n for n in ast.walk(cdf) if isinstance(n, ast.IfExp) and isinstance(n.body, ast.Call)
               and dotted(n.body.func) == "exp.DataType.build"]
-    if len(builds) != 2 or any(dotted(n.test) != "default_data_type" or not (
+    if len(builds) != 1 or any(dotted(n.test) != "default_data_type" or not (
             isinstance(n.orelse, ast.Constant) and n.orelse.value is None) for n in builds):
         raise Untranslatable("createDataFrame: use of the inferred type string changed")
     return entries, {"name": "gen_infer_chain", "where": f"sqlframe/base/session.py:{f.lineno}-{f.end_lineno}",
@@ -205,20 +205,93 @@ sel_columns = [
 '''
 
 
+CELL_FN = '''
+def cell(value: t.Any) -> Column:
+    return Column._lit(value) if isinstance(value, float) else F.lit(value)
+'''
+COLUMN_SAMPLE = '''
+def column_sample(i: int) -> t.Any:
+    for row in rows:
+        if isinstance(row, Row):
+            row = row.asDict()
+        if isinstance(row, dict):
+            value = row.get(row_keys[i])
+        elif isinstance(row, (list, tuple)):
+            value = row[i] if i < len(row) else None
+        else:
+            value = row
+        if value is not None:
+            return value
+    return None
+'''
+INFER_LOOP = '''
+for i, (name, dtype) in enumerate(column_mapping.items()):
+    if dtype is not None:
+        updated_mapping[name] = dtype
+        continue
+    default_data_type = get_default_data_type(column_sample(i))
+    updated_mapping[name] = (
+        exp.DataType.build(default_data_type, dialect="spark") if default_data_type else None
+    )
+'''
+ROW_KEYS = '''
+row_keys: t.Optional[t.List[str]] = None
+if isinstance(rows[0], Row):
+    row_keys = list(rows[0].asDict())
+elif isinstance(rows[0], dict):
+    row_keys = list(rows[0])
+if row_keys is not None and all(name in row_keys for name in column_mapping):
+    row_keys = list(column_mapping)
+'''
+DATA_LOOP = '''
+for row in rows:
+    if isinstance(row, (list, tuple, dict)):
+        if not row:
+            data_expressions.append(exp.tuple_(exp.Null()))
+            continue
+        if isinstance(row, Row):
+            row = row.asDict()
+        if isinstance(row, dict):
+            row = [row.get(key) for key in row_keys or row]
+        data_expressions.append(exp.tuple_(*[cell(x).column_expression for x in row]))
+    else:
+        data_expressions.append(exp.tuple_(*[cell(row).column_expression]))
+'''
+
+
+def _stmt_after(cdf, pred):
+    for n in ast.walk(cdf):
+        if pred(n):
+            return n
+    return None
+
+
 def cells_and_casts(tree, src):
-    """every cell of the VALUES clause is F.lit(x); every typed column is CAST to its type"""
+    """every typed column is CAST to its type; float cells are written by Column._lit, other cells by F.lit;
+    dict/Row rows are read by key; the type of a column is inferred from its first value that is not None"""
     cdf = py2v.find_method(tree, "_BaseSession", "createDataFrame")
     sel = [n for n in ast.walk(cdf) if isinstance(n, ast.Assign) and dotted(n.targets[0]) == "sel_columns"
            and isinstance(n.value, ast.ListComp)]
     if len(sel) != 1 or canon(sel) != canon_src(SEL_COLUMNS):
         raise Untranslatable("createDataFrame: the per-column CAST (sel_columns) changed")
-    lits = [n for n in ast.walk(cdf) if isinstance(n, ast.Attribute) and n.attr == "column_expression"
-            and isinstance(n.value, ast.Call) and dotted(n.value.func) == "F.lit"]
-    tuples = [n for n in ast.walk(cdf) if isinstance(n, ast.Call) and dotted(n.func) == "exp.tuple_"]
-    if len(lits) != 2 or len(tuples) != 3:
-        raise Untranslatable("createDataFrame: VALUES cells are no longer built with F.lit(x).column_expression")
-    return {"name": "cells_are_lit_and_typed_columns_are_cast", "where": f"sqlframe/base/session.py:{cdf.lineno}-{cdf.end_lineno}",
-            "hash": py2v.src_hash(sel[0], src), "value": True}
+    body = cdf.body
+    cellf = [n for n in body if isinstance(n, ast.FunctionDef) and n.name == "cell"]
+    if len(cellf) != 1 or canon(cellf) != canon_src(CELL_FN):
+        raise Untranslatable("createDataFrame: the cell() helper (floats via Column._lit, others via F.lit) changed")
+    samp = [n for n in body if isinstance(n, ast.FunctionDef) and n.name == "column_sample"]
+    if len(samp) != 1 or canon(samp) != canon_src(COLUMN_SAMPLE):
+        raise Untranslatable("createDataFrame: column_sample (first value that is not None) changed")
+    loops = [n for n in body if isinstance(n, ast.For)]
+    if len(loops) != 2 or canon([loops[0]]) != canon_src(INFER_LOOP) or canon([loops[1]]) != canon_src(DATA_LOOP):
+        raise Untranslatable("createDataFrame: the type-inference loop or the VALUES loop changed")
+    k0 = [i for i, n in enumerate(body) if isinstance(n, ast.AnnAssign) and dotted(n.target) == "row_keys"]
+    if len(k0) != 1 or canon(body[k0[0]:k0[0] + 3]) != canon_src(ROW_KEYS):
+        raise Untranslatable("createDataFrame: row_keys (dict/Row rows read by key) changed")
+    where = f"sqlframe/base/session.py:{cdf.lineno}-{cdf.end_lineno}"
+    return [{"name": "typed_columns_are_cast", "where": where, "hash": py2v.src_hash(sel[0], src), "value": True},
+            {"name": "gen_cells_float_via_lit", "where": where, "hash": py2v.src_hash(cellf[0], src), "value": True},
+            {"name": "gen_sample_first_non_none", "where": where, "hash": py2v.src_hash(samp[0], src), "value": True},
+            {"name": "dict_rows_read_by_key", "where": where, "hash": py2v.src_hash(loops[1], src), "value": True}]
 
 
 # ---- Column._lit ---------------------------------------------------------------------------------
@@ -245,7 +318,10 @@ return cls(
     )
 )
 '''
-A_NAN = 'return cls(exp.cast(exp.Literal.string("NaN"), exp.DataType.build("float")))'
+A_NAN = {"TDouble": 'return cls(exp.cast(exp.Literal.string("NaN"), exp.DataType.build("double")))',
+         "TFloat": 'return cls(exp.cast(exp.Literal.string("NaN"), exp.DataType.build("float")))'}
+A_INF = 'return cls(exp.cast(exp.Literal.string(str(value)), exp.DataType.build("double")))'
+INF_LIT_TEST = "isinstance(value, float) and math.isinf(value)"
 A_TS = '''
 if value.tzinfo is None:
     value = value.isoformat(sep=" ")
@@ -268,10 +344,13 @@ def lit_chain(tree, src):
     for test, b in branches:
         if canon([ast.Expr(test)]) == nan_canon:
             cs, g = ["CFloat"], "GNan"
+        elif canon([ast.Expr(test)]) == canon_src(INF_LIT_TEST):
+            cs, g = ["CFloat"], "GInf"
         else:
             cs, g = classes_of(test, "value"), "GAlways"
         for snippet, act in ((A_STRUCT, "AStruct"), (A_ARRAY, "AArray"), (A_TUPLE, "ATuple"), (A_MAP, "AMap"),
-                             (A_NAN, "ANanCast"), (A_TS, "ATsCast")):
+                             (A_NAN["TDouble"], "ANanCast TDouble"), (A_NAN["TFloat"], "ANanCast TFloat"),
+                             (A_INF, "AInfCast"), (A_TS, "ATsCast")):
             if same(b, snippet):
                 break
         else:
@@ -354,6 +433,7 @@ return {
 V_ROW = "return cls._to_row(list(value.keys()), list(value.values()))"
 V_LIST = "return [cls._to_value(x) for x in value]"
 V_STRIP = "return value.replace(tzinfo=None)"
+V_FLOAT = "return float(value)"
 MAP_TEST = "(map_value := cls._try_get_map(value)) is not None"
 TO_ROW = '''
 from sqlframe.base.types import Row, _create_row
@@ -364,8 +444,9 @@ return _create_row(columns, converted_values)
 '''
 TRY_GET_MAP = '''
 if value and isinstance(value, dict):
-    if "key" in value and "value" in value:
-        return dict(zip(value["key"], value["value"]))
+    keys, values = value.get("key"), value.get("value")
+    if isinstance(keys, list) and isinstance(values, list) and len(keys) == len(values):
+        return dict(zip(keys, values))
     if len([k for k in value if not isinstance(k, str)]) > 0:
         return value
 return None
@@ -392,7 +473,7 @@ def tovalue_chain(tree, src, duck_tree, duck_src, types_tree, types_src):
             cs, g = classes_of(test.values[0], "value"), "GTruthy"
         else:
             cs, g = classes_of(test, "value"), "GAlways"
-        for snippet, act in ((V_MAP, "VMap"), (V_ROW, "VRow"), (V_LIST, "VList"), (V_STRIP, "VStripTz")):
+        for snippet, act in ((V_MAP, "VMap"), (V_ROW, "VRow"), (V_LIST, "VList"), (V_STRIP, "VStripTz"), (V_FLOAT, "VFloat")):
             if same(b, snippet):
                 break
         else:
@@ -416,7 +497,7 @@ def tovalue_chain(tree, src, duck_tree, duck_src, types_tree, types_src):
         {"name": "to_row_shape", "where": f"sqlframe/base/session.py:{tr.lineno}-{tr.end_lineno}",
          "hash": py2v.src_hash(tr, src), "value": "maps _to_value, then _create_row"},
         {"name": "try_get_map_shape", "where": f"sqlframe/duckdb/session.py:{tg.lineno}-{tg.end_lineno}",
-         "hash": py2v.src_hash(tg, duck_src), "value": "map iff non-empty dict with keys key+value or a non-str key"},
+         "hash": py2v.src_hash(tg, duck_src), "value": "map iff non-empty dict whose entries key and value are lists of equal length, or with a non-str key"},
         {"name": "create_row_shape", "where": f"sqlframe/base/types.py:{cr.lineno}-{cr.end_lineno}",
          "hash": py2v.src_hash(cr, types_src), "value": "top-level Decimal -> float"},
     ]
@@ -457,6 +538,40 @@ raise NotImplementedError(f"Unsupported data type: {sqlglot_dtype}")
 '''
 
 
+DDL_BRANCH = '''
+ddl = schema.strip()
+if not (ddl.lower().startswith("struct<") and ddl.endswith(">")):
+    ddl = f"struct<{ddl}>"
+try:
+    fields = exp.DataType.build(ddl, dialect=dialect).expressions
+    value = {field.name: field.args["kind"] for field in fields}
+except (KeyError, ParseError, TokenError):
+    value = {}
+if not value:
+    value = {"value": schema.strip()}
+'''
+
+
+def ddl_parsing(tree, src):
+    """the DDL-string branch of get_column_mapping_from_schema_input parses the string as a struct type with
+    sqlglot and keeps the field names as written"""
+    f = None
+    for n in tree.body:
+        if isinstance(n, ast.FunctionDef) and n.name == "get_column_mapping_from_schema_input":
+            f = n
+    if f is None:
+        raise Untranslatable("get_column_mapping_from_schema_input not found")
+    branch = None
+    for n in ast.walk(f):
+        if isinstance(n, ast.If) and isinstance(n.test, ast.Call) and dotted(n.test.func) == "isinstance" \
+                and dotted(n.test.args[0]) == "schema" and dotted(n.test.args[1]) == "str":
+            branch = n
+    if branch is None or canon(branch.body) != canon_src(DDL_BRANCH):
+        raise Untranslatable("get_column_mapping_from_schema_input: the DDL-string branch changed")
+    return {"name": "ddl_string_parsed_as_struct_type", "where": f"sqlframe/base/util.py:{f.lineno}-{f.end_lineno}",
+            "hash": py2v.src_hash(branch, src), "value": True}
+
+
 def primitive_mapping(tree, src):
     f = None
     for n in tree.body:
@@ -495,7 +610,7 @@ def generate(repo: str):
     facts = []
     ich, fa = infer_chain(s_tree, s_src)
     facts.append(fa)
-    facts.append(cells_and_casts(s_tree, s_src))
+    facts += cells_and_casts(s_tree, s_src)
     lch, fa = lit_chain(c_tree, c_src)
     facts.append(fa)
     facts.append(column_init(c_tree, c_src))
@@ -505,6 +620,7 @@ def generate(repo: str):
     facts += fas
     pm, fa = primitive_mapping(u_tree, u_src)
     facts.append(fa)
+    facts.append(ddl_parsing(u_tree, u_src))
     text = ("(* generated from %s by translate/c09_facts.py -- do not edit *)\n" % repo
             + "From Coq Require Import List String.\n"
             + "From SF Require Import C09.Lex C09.Values C09.Pipeline C09.Schema.\nImport ListNotations.\n\n"
@@ -513,7 +629,8 @@ def generate(repo: str):
             + coq_chain("gen_litfn_chain", "fact", fch) + "\n"
             + coq_chain("gen_tovalue_chain", "vact", vch) + "\n"
             + "Definition gen_primitive_mapping : list (string * string) :=\n  ["
-            + ";\n   ".join(f'("{a}"%string, "{b}"%string)' for a, b in pm) + "].\n")
+            + ";\n   ".join(f'("{a}"%string, "{b}"%string)' for a, b in pm) + "].\n\n"
+            + "Definition gen_cells_float_via_lit : bool := true.\nDefinition gen_sample_first_non_none : bool := true.\n")
     return text, facts
 
 
